@@ -18,7 +18,7 @@ BOUNDS = {
     "quick": "min_cost_flow: 16 named topologies on 3-5 nodes (DAGs, cycles, anti-parallel pairs with different costs, parallel arcs, zero-cost, "
              "negative-cost arcs on DAGs), pass cap (capacities, demand unbounded Ints >= 0) and pass cost (costs unbounded Ints, non-negative unless "
              "the topology is a DAG); network_simplex: the same topologies with supply vectors derived from (source, sink, demand) and a "
-             "multi-source variant (a transshipment variant in thorough), capacities/supplies symbolic; solve_assignment: every cost matrix of shapes up to 2x3 / 3x2 (3x3 in thorough) with unbounded Int entries",
+             "multi-source variant (a transshipment variant in thorough), capacities/supplies symbolic, and on 4 topologies a symbolic pivot budget max_iter in 0..12; solve_assignment: every cost matrix of shapes up to 2x3 / 3x2 (3x3 in thorough) with unbounded Int entries",
     "thorough": "adds VERIF_SEED-sampled 4-5 node topologies (60), 3x4/4x3 assignment, cost pass for network_simplex",
 }
 OUTSIDE = "topologies outside the named/sampled sets; non-integer data; negative cycles (excluded by precondition)"
